@@ -1132,3 +1132,52 @@ Lemma squash_thm :
   (forall files n x y r, squash_sizes n files = x :: y :: r -> 2 * x < y) /\
   (forall o, level_corr o = true -> level_ok o = true).
 Proof. split; [exact squash_sizes_sum|]. split; [exact squash_sizes_top|exact level_corr_ok]. Qed.
+
+(** * merging another index in *)
+Lemma merge_in_fold_none other : forall todo, fold_left (fun acc (e : sentry) =>
+    match acc with
+    | Some s => add_commit_data s (fst e) (ids_of_parents other (snd e))
+    | None => None
+    end) todo None = None.
+Proof. induction todo as [|e l IH]; simpl; [reflexivity|assumption]. Qed.
+
+(** merge_in keeps every own entry at its position, only appends, and keeps the index
+    well-formed; every id of the other index ends up indexed *)
+Lemma merge_in_spec other : forall todo st st',
+  fold_left (fun acc (e : sentry) =>
+    match acc with
+    | Some s => add_commit_data s (fst e) (ids_of_parents other (snd e))
+    | None => None
+    end) todo (Some st) = Some st' ->
+  wf (flat_graph st) ->
+  wf (flat_graph st') /\ (exists more, flat st' = flat st ++ more) /\
+  (forall e, In e todo -> commit_id_to_pos st' (fst e) <> None).
+Proof.
+  induction todo as [|e todo IH]; intros st st' H W; simpl in H.
+  - injection H as <-. split; [assumption|]. split; [exists []; now rewrite app_nil_r|intros e []].
+  - destruct (add_commit_data st (fst e) (ids_of_parents other (snd e))) as [s1|] eqn:A.
+    + pose proof (add_commit_data_wf _ _ _ _ W A) as W1.
+      destruct (IH s1 st' H W1) as (W' & (more & Em) & Hin).
+      split; [assumption|]. split.
+      * destruct (add_commit_data_flat _ _ _ _ A) as [[E _]|(ps & E & _)].
+        -- exists more. now rewrite Em, E.
+        -- exists ([(fst e, ps)] ++ more). now rewrite Em, E, <- app_assoc.
+      * intros e' [<-|He']; [|now apply Hin].
+        (* the id is known right after its own step, and positions are only appended *)
+        assert (K1 : commit_id_to_pos s1 (fst e) <> None).
+        { destruct (add_commit_data_flat _ _ _ _ A) as [[E K]|(ps & E & _)].
+          - unfold add_commit_data in A. destruct (commit_id_to_pos st (fst e)) eqn:C; [|congruence].
+            injection A as <-. congruence.
+          - intros C. apply (commit_id_to_pos_none s1 (fst e) C (fst e, ps)); [|reflexivity].
+            rewrite E. apply in_or_app. right. now left. }
+        intros C. destruct (commit_id_to_pos s1 (fst e)) as [p|] eqn:C1; [|congruence].
+        destruct (commit_id_to_pos_some _ _ _ C1) as (Lp & ps & Hn).
+        apply (commit_id_to_pos_none st' (fst e) C (fst e, ps)); [|reflexivity].
+        rewrite Em. apply in_or_app. left. now apply nth_error_In in Hn.
+    + now rewrite merge_in_fold_none in H.
+Qed.
+
+Lemma merge_thm : forall st other st', merge_in st other = Some st' -> wf (flat_graph st) ->
+  wf (flat_graph st') /\ (exists more, flat st' = flat st ++ more) /\
+  (forall e, In e other -> commit_id_to_pos st' (fst e) <> None).
+Proof. intros st other st'. apply merge_in_spec. Qed.
